@@ -145,11 +145,17 @@ Definition ktensor_full_at (K : ktensor V) (isplit : nat) : option (dense V) :=
       Some (np_reshapeF v0 (matrix_to_dense v0 M (length L) (length Rm)) (kshape K))
   | _, _ => None
   end.
-(* ktensor.full as the code is (a 1-way Kruskal tensor has no split point: None) *)
+(* ktensor.full as the code is: `if self.ndims == 1: tensor(factor_matrices[0] @ weights, shape)` (no split point exists for
+   a single mode), otherwise the split chosen by min_split_dims *)
+Definition ktensor_full_1way (K : ktensor V) (A : matrix (V:=V)) : dense V :=
+  mkDense (kshape K) (map (fun row => dotv row (kweights K)) A).
 Definition ktensor_full_impl (K : ktensor V) : option (dense V) :=
-  match min_split_dims (kshape K) with
-  | Some i => ktensor_full_at K i
-  | None => None
+  match kfactors K with
+  | [A] => Some (ktensor_full_1way K A)
+  | _ => match min_split_dims (kshape K) with
+         | Some i => ktensor_full_at K i
+         | None => None
+         end
   end.
 (* what the property demands for every Kruskal tensor *)
 Definition ktensor_full_spec (K : ktensor V) : dense V := tabulate (kshape K) (den_k v0 v1 vadd vmul K).
